@@ -232,12 +232,16 @@ func safeCheck(check func(c *Case, s *Stats) error, c *Case, s *Stats) error {
 	// The limit is 4 x 150 s: two to three orders of magnitude above the slowest
 	// legitimate case of the thorough tier on a loaded machine.
 	limit := 4 * hangLimit()
-	if c.Prop == "C11" {
+	if c.Prop == "C11" || c.Prop == "C19" || thorough() {
 		// The race-detector build runs an order of magnitude slower and a C11 case
 		// starts dozens of goroutines on tries of up to 10^5 keys: on a busy machine
 		// a legitimate case took more than five minutes (thorough tier, session 2 —
 		// a false alarm of this watchdog). No case-level limit there; a hang ends
 		// with the test deadline as "inconclusive".
+		// The same happened to C19 in the thorough tier: String() is quadratic in the
+		// node count and a 32 768-key tree legitimately takes minutes. The case-level
+		// limit is therefore confined to the quick tier of the other properties, whose
+		// cases are small; everywhere else only the narrow per-call watchdogs apply.
 		limit = 1000 * time.Hour
 	}
 	tm := time.NewTimer(limit)
